@@ -106,6 +106,7 @@ def _h0_case(draw, mode):
         "orientation": draw(st.sampled_from(["left", "left", "right", "explicit"] if nh else ["right", "right", "explicit"])),
         "atol_opt": draw(st.sampled_from([None, 1e-12, 1e-8])),
         "tight": mode == "direct" and draw(st.integers(0, 4)) == 0,
+        "reverse_explicit": draw(st.booleans()),
     }
     if mode == "greens":
         case["dtype"] = draw(st.sampled_from(["float64", "complex128", "float32", "complex64"]))
@@ -179,6 +180,15 @@ def build_h0(case):
             R = R.real
             Rinv = Rinv.real
     L = Rinv.conj().T
+    if case.get("reverse_explicit"):
+        # the caller may list the eigenvectors of a block in any order: reverse each explicit block
+        pos = 0
+        R, L, E = R.copy(), L.copy(), E.copy()
+        for s_ in case["sizes"]:
+            R[:, pos : pos + s_] = R[:, pos : pos + s_][:, ::-1]
+            L[:, pos : pos + s_] = L[:, pos : pos + s_][:, ::-1]
+            E[pos : pos + s_] = E[pos : pos + s_][::-1]
+            pos += s_
     return H0, R, L, E
 
 
